@@ -67,6 +67,25 @@ func (p *Pipe) Feed(chunks ...[]byte) {
 	p.mu.Unlock()
 }
 
+// FeedPartitionZero feeds stream cut at the given offsets; an offset that occurs twice makes
+// the transport hand out a zero-size read result (0, nil) at that position, which io.Reader
+// permits ("nothing happened").
+func (p *Pipe) FeedPartitionZero(stream []byte, cuts []int) {
+	prev := 0
+	p.mu.Lock()
+	for _, c := range append(append([]int{}, cuts...), len(stream)) {
+		switch {
+		case c > prev:
+			p.chunks = append(p.chunks, append([]byte{}, stream[prev:c]...))
+			prev = c
+		case c == prev && c < len(stream):
+			p.chunks = append(p.chunks, []byte{})
+		}
+	}
+	p.cond.Broadcast()
+	p.mu.Unlock()
+}
+
 // FeedPartition feeds stream cut at the given offsets.
 func (p *Pipe) FeedPartition(stream []byte, cuts []int) {
 	prev := 0
@@ -115,6 +134,12 @@ func (p *Pipe) Read(b []byte) (int, error) {
 		p.parked = false
 	}
 	c := p.chunks[0]
+	if len(c) == 0 {
+		// a scripted zero-size read result
+		p.chunks = p.chunks[1:]
+		p.reads++
+		return 0, nil
+	}
 	n := len(c)
 	if n > len(b) {
 		n = len(b)
